@@ -60,6 +60,10 @@ def check(run: Run) -> None:
     run.rule("R10.5", "valid is True exactly when validation_status is VALIDATED at every return of octave_validate", 8)
     run.rule("R10.6", "envelope helpers hard-code UNVALIDATED", 3)
     run.rule("R10.7", "schema-less validation yields no errors: every error-producing step of Validator.validate is guarded by schema presence (summary used by R10.3 for the CLI)", 3)
+    run.rule("R10.9", "octave_write never reports a status for text it did not write: every non-exceptional path from a change of the document (repair(fix=True), a store into doc.meta) to the write of the temp file re-emits the written text from the document", 2)
+    from .c11 import check_write_reports
+
+    check_write_reports(run, res, None, "R10.9")
     run.assume("get_builtin_schema / load_schema_by_name are pure lookups (module state is read-only: C06 R06.3), so a repeated identical call agrees with the first")
 
     n_returns = 0
